@@ -3,6 +3,7 @@ package rules
 import (
 	"fmt"
 	"go/token"
+	"go/types"
 	"os"
 	"strings"
 
@@ -23,10 +24,12 @@ type panicSite struct {
 
 // decoderFuncs: functions of package aper reachable from UnmarshalWithParams.
 func decoderFuncs(c *core.Ctx) []*ssa.Function {
-	reach := staticReach(mustFunc(c, pAper, "UnmarshalWithParams"))
+	// everything of the repository's own NGAP decode path: package aper below
+	// UnmarshalWithParams and whatever package ngap itself runs inside Decoder
+	reach := staticReach(mustFunc(c, pAper, "UnmarshalWithParams"), mustFunc(c, pNgap, "Decoder"))
 	var out []*ssa.Function
 	for _, f := range sortedFuncs(reach) {
-		if fnPkgPath(f) == pAper && len(f.Blocks) > 0 {
+		if pp := fnPkgPath(f); (pp == pAper || pp == pNgap) && len(f.Blocks) > 0 {
 			out = append(out, f)
 		}
 	}
@@ -137,6 +140,24 @@ func proveSite(p *core.Pather, s panicSite) string {
 		if guardHolds(conds, "("+i+">="+ln+")=F", "("+i+"<"+ln+")=T", "("+ln+"<="+i+")=F", "("+ln+">"+i+")=T") {
 			return "index guarded by i < len(base)"
 		}
+		// constant index k under a dominating `len(base) < C` = false (or `>= C` = true) with C > k
+		if k, isK := core.ConstInt(idx); isK && k >= 0 {
+			for _, cnd := range conds {
+				var cst int64
+				if n, _ := fmt.Sscanf(cnd, "("+ln+"<%d)=F", &cst); n == 1 && cst > k {
+					return "constant index below a dominating len(base) >= C"
+				}
+				if n, _ := fmt.Sscanf(cnd, "("+ln+">=%d)=T", &cst); n == 1 && cst > k {
+					return "constant index below a dominating len(base) >= C"
+				}
+				if n, _ := fmt.Sscanf(cnd, "("+ln+">%d)=T", &cst); n == 1 && cst >= k {
+					return "constant index below a dominating len(base) > C"
+				}
+				if n, _ := fmt.Sscanf(cnd, "("+ln+"<=%d)=F", &cst); n == 1 && cst >= k {
+					return "constant index below a dominating len(base) > C"
+				}
+			}
+		}
 	case *ssa.Slice:
 		lo, hi := "", ""
 		if x.Low != nil {
@@ -200,10 +221,11 @@ var c14Reasoned = map[string]string{
 }
 
 func c14(c *core.Ctx) map[string]interface{} {
-	c.Explanation = "Static obligation list for totality of the NGAP/APER decoder (C14). Decided: (R0.nilglobal) no never-initialised global is dereferenced; (R14.guard) every index, slice, division, type assertion and allocation site in the functions of package aper reachable from UnmarshalWithParams is either proved in range by a recognised dominating guard (i < len(base); hi <= len(base) with lo a summand of hi; prefix slice after HasPrefix) or is one of the named reasoned exceptions whose argument is recorded - any other site, including a site whose expression or guard was changed, is reported as not provably in range; (R14.zero) GetBitString returns before indexing when asked for zero bits and when more bits are requested than remain; (R14.cursor) the decoder cursor byteOffset is advanced only by amounts that a dominating guard compared with len(bytes), by one octet after an explicit bounds test, or by bitCarry (which moves whole octets already accounted in bitsOffset), and getBitsValue/getBitString reject reads beyond the remaining bits before moving the cursor; (R14.loop) every `for {}` fragment loop advances the cursor on each way back to its head and is left unless the length determinant announced another fragment; (R14.alloc) reflect.MakeSlice is sized by a constrained count (<= 16 bits) or one octet; (R14.rec) recursion follows the acyclic schema (R4.acyclic) and open-type sub-buffers are strict sub-slices; (R14.nopanic) no panic/log.Fatal/os.Exit in the decoder. NOT decided: panics inside reflect for reasons other than those enumerated; actual time and memory figures."
+	c.Explanation = "Static obligation list for totality of the NGAP/APER decoder (C14). Decided: (R0.nilglobal) no never-initialised global is dereferenced; (R14.guard) every index, slice, division, type assertion and allocation site in the functions of packages aper and ngap reachable from ngap.Decoder / UnmarshalWithParams is either proved in range by a recognised dominating guard (i < len(base); hi <= len(base) with lo a summand of hi; prefix slice after HasPrefix) or is one of the named reasoned exceptions whose argument is recorded - any other site, including a site whose expression or guard was changed, is reported as not provably in range; (R14.shift) no shift in the decode path has a count of signed type that is not provably non-negative (a negative shift count panics); (R14.zero) GetBitString returns before indexing when asked for zero bits and when more bits are requested than remain; (R14.cursor) the decoder cursor byteOffset is advanced only by amounts that a dominating guard compared with len(bytes), by one octet after an explicit bounds test, or by bitCarry (which moves whole octets already accounted in bitsOffset), and getBitsValue/getBitString reject reads beyond the remaining bits before moving the cursor; (R14.loop) every `for {}` fragment loop advances the cursor on each way back to its head and is left unless the length determinant announced another fragment; (R14.alloc) reflect.MakeSlice is sized by a constrained count (<= 16 bits) or one octet; (R14.rec) recursion follows the acyclic schema (R4.acyclic) and open-type sub-buffers are strict sub-slices; (R14.nopanic) no panic/log.Fatal/os.Exit in the decoder. NOT decided: panics inside reflect for reasons other than those enumerated; actual time and memory figures."
 	c.Assumptions = []string{"reflect.Value.Set*/Field(i) do not panic for exported fields of exported struct types with i < NumField (R3.tag checks exportedness)", "the reasoned exceptions were read and argued by hand; each is tied to the exact expression"}
 	r0nilglobal(c, ngapEntries(c)...)
 	r14guard(c)
+	r14shift(c)
 	r14zero(c)
 	r14cursor(c)
 	r14loop(c)
@@ -562,5 +584,48 @@ func r14nopanic(c *core.Ctx) {
 	}
 	if bad == 0 {
 		c.Ok(R, "aper:decoder-functions", token.NoPos, fmt.Sprintf("%d functions scanned", n))
+	}
+}
+
+// r14shift: Go panics on a negative shift count; counts of unsigned type cannot be
+// negative, counts of signed type need a proof (interval analysis).
+func r14shift(c *core.Ctx) {
+	const R = "R14.shift"
+	c.Rule(R, "every shift of the decode path has an unsigned count, a constant count, or a signed count provably >= 0")
+	n := 0
+	for _, f := range decoderFuncs(c) {
+		ia := core.NewIntervalAnalyzer(f)
+		p := core.NewPather(f)
+		ord := 0
+		for _, b := range f.Blocks {
+			for _, in := range b.Instrs {
+				bo, ok := in.(*ssa.BinOp)
+				if !ok || (bo.Op != token.SHL && bo.Op != token.SHR) {
+					continue
+				}
+				ord++
+				n++
+				key := fmt.Sprintf("%s:shift#%d", shortFn(f), ord)
+				if k, isK := core.ConstInt(bo.Y); isK {
+					c.Check(k >= 0, R, key, bo.Pos(), "constant count", "constant negative shift count %d", k)
+					continue
+				}
+				bt, isBasic := bo.Y.Type().Underlying().(*types.Basic)
+				if isBasic && bt.Info()&types.IsUnsigned != 0 {
+					c.Ok(R, key, bo.Pos(), "count of unsigned type")
+					continue
+				}
+				iv := ia.At(bo.Y, b)
+				if iv.Known && iv.Lo >= 0 {
+					c.Ok(R, key, bo.Pos(), fmt.Sprintf("signed count in [%d,%d]", iv.Lo, iv.Hi))
+					continue
+				}
+				c.Fail(R, key, bo.Pos(), "shift count %s has signed type and is not provably non-negative: a length taken from the input can make it negative, and Go panics on a negative shift count", clip(p.Path(bo.Y)))
+			}
+		}
+	}
+	c.Sites(n)
+	if n < 10 {
+		c.Undecided("R14.shift found only %d shifts in the decoder (expected about 30)", n)
 	}
 }
